@@ -4,6 +4,7 @@ import (
 	"encoding/binary"
 	"errors"
 	"fmt"
+	"os"
 	"regexp"
 	"sort"
 	"strconv"
@@ -30,6 +31,10 @@ type mvccEngine struct {
 	iters   map[string]*mvIter
 	handles map[string]*skiplist.Node
 	down    bool
+	delta   bool
+	nw      int
+	bkdir   string         // directory of the last store
+	old     []*nitro.Nitro // instances replaced by `load`, closed at teardown
 
 	sent, done int64 // gc lists sent by collectDead / finished by the collection workers
 }
@@ -79,6 +84,9 @@ func (e *mvccEngine) teardown() {
 		e.alloc.Release()
 	}
 	e.db = nil
+	if e.bkdir != "" {
+		os.RemoveAll(e.bkdir)
+	}
 }
 
 func (e *mvccEngine) reset() {
@@ -94,8 +102,13 @@ func (e *mvccEngine) item(k, v int) []byte {
 	if !e.kv {
 		return kb
 	}
-	vb := make([]byte, 8)
-	binary.BigEndian.PutUint64(vb, uint64(v))
+	// the value is encoded on 1 + v%4 bytes, so that items with equal keys differ in length too
+	full := make([]byte, 8)
+	binary.BigEndian.PutUint64(full, uint64(v))
+	vb := full[8-(1+v%4):]
+	if uint64(v) >= 1<<(8*uint(len(vb))) {
+		vb = full
+	}
 	return nitro.KVToBytes(kb, vb)
 }
 
@@ -107,10 +120,12 @@ func (e *mvccEngine) show(b []byte) string {
 		return fmt.Sprintf("%d:0", binary.BigEndian.Uint64(b))
 	}
 	k, v := nitro.KVFromBytes(b)
-	if len(k) != 8 || len(v) != 8 {
+	if len(k) != 8 || len(v) < 1 || len(v) > 8 {
 		return "badbytes:" + bytesToHex(b)
 	}
-	return fmt.Sprintf("%d:%d", binary.BigEndian.Uint64(k), binary.BigEndian.Uint64(v))
+	full := make([]byte, 8)
+	copy(full[8-len(v):], v)
+	return fmt.Sprintf("%d:%d", binary.BigEndian.Uint64(k), binary.BigEndian.Uint64(full))
 }
 
 func (e *mvccEngine) keyOf(b []byte) int {
@@ -181,13 +196,22 @@ func (e *mvccEngine) step(toks []string) string {
 		}
 		if d, ok := argOf(toks, "delta"); ok && d == "1" {
 			cfg.UseDeltaInterleaving()
+			e.delta = true
 		}
+		e.nw = nw
 		nitro.VerifHook = func(point int, obj unsafe.Pointer) {
+			// only the instance under test counts (scratch instances of the backup ops have no workers)
 			switch nitroPoint[point] {
 			case "COLLECT_SEND":
-				atomic.AddInt64(&e.sent, 1)
+				if obj == unsafe.Pointer(e.db) {
+					atomic.AddInt64(&e.sent, 1)
+				}
 			case "WORKER_DONE":
-				atomic.AddInt64(&e.done, 1)
+				for _, w := range e.writers {
+					if obj == unsafe.Pointer(w) {
+						atomic.AddInt64(&e.done, 1)
+					}
+				}
 			}
 		}
 		e.db = nitro.NewWithConfig(cfg)
@@ -440,6 +464,8 @@ func (e *mvccEngine) step(toks []string) string {
 			nodes = fmt.Sprintf("%d/stat=%d/marked=%d", live, stat, marked)
 		}
 		return fmt.Sprintf("nodes=%s lastgc=%d snaps=%d", nodes, e.db.GetLastGCSn(), len(e.db.GetSnapshots()))
+	case "store", "image", "loadimg", "load", "storeload", "crashload", "manifest":
+		return e.backupOp(toks)
 	case "shutdown":
 		for _, r := range e.refs {
 			if r > 0 {
